@@ -26,7 +26,7 @@ ASSUMPTIONS = [
 STEP_KINDS = [
     "set_scalar_kw", "del_scalar_kw", "set_schema_kw", "prop_add", "prop_del", "prop_replace_all",
     "prop_flip_required", "prop_replace_element", "class_kw", "elements_assign", "set_default",
-    "prop_replace_other_source",
+    "prop_replace_other_source", "prop_dict_api", "prop_source_assign",
 ]
 REQUIRED_COUNTERS = ["histories", "compare.calls", "compare.accepted", "compare.rejected", "triples", "compare.model_consulted",
                      "target.Object", "target.Element"] + [f"step.{k}" for k in STEP_KINDS]
@@ -160,12 +160,13 @@ def apply_step(rng, spec, root, notpassed):
         if kind == "Object":
             choices += ["class_kw", "prop_add", "set_schema_kw"]
             if node.get("props"):
-                choices += ["prop_del", "prop_flip_required", "prop_replace_element", "prop_replace_other_source"]
+                choices += ["prop_del", "prop_flip_required", "prop_replace_element", "prop_replace_other_source",
+                            "prop_dict_api", "prop_source_assign"]
         if kind == "Element":
             choices += ["prop_add", "prop_replace_all"]
             if node.get("kw", {}).get("properties"):
                 choices += ["prop_del", "prop_flip_required", "prop_replace_element",
-                            "prop_replace_other_source"]
+                            "prop_replace_other_source", "prop_dict_api", "prop_source_assign"]
         if kind in ("AnyOf", "OneOf", "AllOf", "Not"):
             choices.append("elements_assign")
         if not choices:
@@ -273,6 +274,40 @@ def apply_step(rng, spec, root, notpassed):
                 new_el = small_spec(rng)
                 holder[name] = dict(holder[name], el=new_el)
                 live.properties[name].element = gen_dsl.build(new_el)
+            elif step == "prop_dict_api":
+                # the properties mapping is a dict: its whole API is a way to add / replace / remove
+                from vlib import sut  # pylint: disable=import-outside-toplevel
+
+                api = rng.choice(["pop", "popitem", "update", "setdefault", "clear"])
+                if api == "pop":
+                    del holder[name]
+                    live.properties.pop(name)
+                elif api == "popitem":
+                    last = list(holder)[-1]
+                    del holder[last]
+                    live.properties.popitem()
+                elif api == "clear":
+                    holder.clear()
+                    live.properties.clear()
+                else:
+                    new_name = rng.choice(gen_dsl.PY_NAMES)
+                    pspec = {"el": small_spec(rng), "required": rng.random() < 0.5, "source": None}
+                    prop = sut.Property(gen_dsl.build(pspec["el"]), required=pspec["required"])
+                    if api == "update":
+                        holder[new_name] = pspec
+                        live.properties.update({new_name: prop})
+                        # dict.update bypasses __setitem__: the documented way to bind is assignment, so
+                        # bind explicitly as the setter would
+                        prop.bind(name=new_name, parent=live)
+                    else:
+                        if new_name not in holder:
+                            holder[new_name] = pspec
+                            live.properties.setdefault(new_name, prop)
+                            prop.bind(name=new_name, parent=live)
+            elif step == "prop_source_assign":
+                new_source = rng.choice([name + "_renamed", "SRC", name])
+                holder[name] = dict(holder[name], source=new_source if new_source != name else None)
+                live.properties[name].source = new_source
             elif step == "prop_replace_other_source":
                 # a new Property object under the SAME attribute name but another JSON name
                 from vlib import sut  # pylint: disable=import-outside-toplevel
